@@ -87,7 +87,7 @@ class CFG:
                     continue
                 if skip_labels is not None and skip_labels(l):
                     continue
-                if (n.id, l) in redges:
+                if (n.id, l) in redges or (branch_of(l) and (n.id, branch_of(l)) in redges):
                     continue
                 stack.append(m)
         return seen
@@ -167,7 +167,16 @@ def is_exc(label: str) -> bool:
 
 
 def is_back(label: str) -> bool:
-    return label == "loop"
+    return label.startswith("loop")
+
+
+def branch_of(label: str):
+    """'T' / 'F' for a branch edge (also when it is a back edge), else None."""
+    if label in ("T", "F"):
+        return label
+    if label in ("loop:T", "loop:F"):
+        return label[-1]
+    return None
 
 
 # ---------------------------------------------------------------------------
@@ -316,7 +325,7 @@ class Builder:
 
     def _connect_back(self, d: Dangling, head: Node):
         for (n, l) in d:
-            self.g.edge(n, head, "loop")
+            self.g.edge(n, head, "loop:" + l if l in ("T", "F") else "loop")
 
     def _raised_types(self, s: ast.Raise, ctx: _Ctx) -> Set[str]:
         if s.exc is None:
